@@ -28,10 +28,10 @@ ASSUMPTIONS = [
 ]
 
 
-def body_store_step(c0, c1, c2, target, body):
+def body_store_step(c0, c1, c2, target, body, hist):
     kind, op, cond = ctx.PART  # concrete partition: back end, operation, kind of etag condition
     n = ctx.b.n
-    f = _store.step(kind, [c0, c1, c2], n, op, target, body, cond)
+    f = _store.step(kind, [c0, c1, c2], n, op, target, body, cond, hist=hist)
     if f is None:
         return (True, "pre-invalid")
     if kind == "vdir" and f["name"].endswith(".txt"):
@@ -48,13 +48,41 @@ def body_store_step(c0, c1, c2, target, body):
     return (ok, cls)
 
 
-def h_store_step(c0: bytes, c1: bytes, c2: bytes, target: int, body: bytes) -> bool:
+def h_store_step(c0: bytes, c1: bytes, c2: bytes, target: int, body: bytes, hist: int) -> bool:
     """
     pre: len(c0) <= ctx.b.blen and len(c1) <= ctx.b.blen and len(c2) <= ctx.b.blen and len(body) <= ctx.b.blen
-    pre: 0 <= target < ctx.b.n + 3
+    pre: 0 <= target < ctx.b.n + 3 and 0 <= hist <= 2
     post: _
     """
-    return run(body_store_step, c0, c1, c2, target, body)
+    return run(body_store_step, c0, c1, c2, target, body, hist)
+
+
+def body_store_fault(c0, c1, target, body, k):
+    """A fault (ENOSPC on a file / object write, failed ref update) at the k-th mutation: the operation is not
+    acknowledged, so nothing observable may change - through the SAME store object and through a fresh one."""
+    kind, op = ctx.PART
+    f = _store.step(kind, [c0, c1, b""], 2, op, target, body, 0, fault_at=k)
+    if f is None:
+        return (True, "pre-invalid")
+    if kind == "vdir" and f["name"].endswith(".txt"):
+        return (True, "vdir-other-ext")
+    if f["faulted"] is None:
+        ok = f["outcome"] == f["want"] and mstore.agrees(kind, f["obs_restart"], f["S2"])
+        return (ok, "no-fault")
+    ok = f["outcome"] != "ok"
+    ok = ok and mstore.agrees(kind, f["obs1"], f["S"]) and mstore.agrees(kind, f["obs_restart"], f["S"])
+    if kind != "vdir":
+        ok = ok and f["ctag1"] == f["ctag0"] and f["ctag_restart"] == f["ctag0"]
+    ok = ok and f["other_same"]
+    return (ok, "fault:" + f["faulted"])
+
+
+def h_store_fault(c0: bytes, c1: bytes, target: int, body: bytes, k: int) -> bool:
+    """
+    pre: len(c0) <= 2 and len(c1) <= 2 and len(body) <= 2 and 0 <= target < 5 and 1 <= k <= 12
+    post: _
+    """
+    return run(body_store_fault, c0, c1, target, body, k)
 
 
 OPS = [(0, 0), (0, 1), (0, 2), (0, 3), (1, 0), (1, 1), (1, 3), (2, 0)]
@@ -206,6 +234,14 @@ HARNESSES = [
                      "xandikos.store.git.TreeGitStore.delete_one", "xandikos.store.git.locked_index",
                      "xandikos.store.vdir.VdirStore.import_one", "xandikos.store.vdir.VdirStore.delete_one",
                      "xandikos.store.Store.get_file"]),
+    Harness("store_fault", h_store_fault, body_store_fault,
+            classes=[("fault:obj-add", ("bare", 0)), ("fault:ref-set", ("bare", 1)), ("fault:append", ("tree", 0)),
+                     ("fault:truncate", ("vdir", 0)), ("no-fault", ("tree", 1))],
+            parts={"quick": [(k, op) for k in mstore.KINDS for op in (0, 1)]}, budget={"quick": 60, "thorough": 420},
+            describe="a put / delete whose k-th mutation fails (ENOSPC on a file or object write, failed ref update): the "
+                     "request is not acknowledged and neither the same store object nor a fresh one sees any change; "
+                     "part = (back end, operation)",
+            encodes=_store.STEP_ENCODES),
     Harness("web_step", h_web_step, body_web_step,
             classes=[("PUT:2xx", ("PUT", False, "/")), ("PUT:412", ("PUT", True, "/dav/")), ("DELETE:2xx", ("DELETE", False, "/")),
                      ("DELETE:404", ("DELETE", True, "/")), ("DELETE:412", ("DELETE", False, "/")),
